@@ -184,6 +184,11 @@ func (uw *unmarshalWork) Unmarshal() {
 	start := time.Now()
 	err := uw.rows.Unmarshal(bytesutil.ToUnsafeString(uw.ReqBuf), uw.EnableTagArray)
 	rows := uw.rows.Rows
+	if err == nil && len(rows) != countDataLines(uw.ReqBuf) {
+		// unmarshalRows reports only the error of the last line; a refused line in the middle of the block
+		// shows up as a missing row and must not be acknowledged silently
+		err = fmt.Errorf("unable to parse %d of %d points in the request", countDataLines(uw.ReqBuf)-len(rows), countDataLines(uw.ReqBuf))
+	}
 	if err != nil {
 		uw.Callback(uw.Db, rows, err)
 		putUnmarshalWork(uw)
@@ -234,6 +239,27 @@ func (uw *unmarshalWork) Unmarshal() {
 
 	uw.Callback(uw.Db, rows, err)
 	putUnmarshalWork(uw)
+}
+
+// countDataLines returns the number of lines of a block that carry a point: everything except empty lines and
+// comments, exactly as unmarshalRow skips them.
+func countDataLines(b []byte) int {
+	n := 0
+	for len(b) > 0 {
+		line := b
+		if i := bytes.IndexByte(b, '\n'); i >= 0 {
+			line, b = b[:i], b[i+1:]
+		} else {
+			b = nil
+		}
+		if len(line) > 0 && line[len(line)-1] == '\r' {
+			line = line[:len(line)-1]
+		}
+		if len(line) > 0 && line[0] != '#' {
+			n++
+		}
+	}
+	return n
 }
 
 func (uw *unmarshalWork) Cancel(reason string) {
